@@ -321,6 +321,8 @@ func AsObjects(m map[string]any) (map[string]Object, error) {
 	result := make(map[string]Object, len(m))
 	for k, v := range m {
 		switch v := v.(type) {
+		case nil:
+			result[k] = Nil
 		case Object:
 			result[k] = v
 		default:
@@ -356,6 +358,9 @@ type TypeConverter interface {
 // NewTypeConverter returns a TypeConverter for the given Go kind and type.
 // Converters are cached internally for reuse.
 func NewTypeConverter(typ reflect.Type) (TypeConverter, error) {
+	if typ == nil {
+		return nil, errz.TypeErrorf("type error: no type converter for untyped nil")
+	}
 	goTypeMutex.Lock()
 	defer goTypeMutex.Unlock()
 
